@@ -320,6 +320,8 @@ def run(ctx, rep):
 
     # ------------------------------------------------------------------ R03.8
     K.share(ctx, rep, "c04", lambda o: o.rule in ("R04.1", "R04.2", "R04.3", "R04.4", "R04.6"), "R03.8", floor=20)
+    # ... and the frame layer hands the decoder exactly the bytes the encoder produced, whatever their size (= R05.4, R05.8)
+    K.share(ctx, rep, "c05", lambda o: o.rule in ("R05.4", "R05.8"), "R03.8", floor=3)
     _weak_cache_model(ctx, rep)
 
 
